@@ -277,6 +277,58 @@ pub fn definitely_not(v: &Value, t: &DataType) -> bool {
     matches!(member(v, t), Some(false))
 }
 
+/// Does the value contain a NULL anywhere
+pub fn has_null(v: &Value) -> bool {
+    match v {
+        Value::Optional(o) => match o.as_ref() {
+            None => true,
+            Some(x) => has_null(x),
+        },
+        Value::Unit(_) => true,
+        Value::Struct(s) => s.fields().iter().any(|(_, x)| has_null(x)),
+        Value::List(l) => l.iter().any(has_null),
+        Value::Set(l) => l.iter().any(has_null),
+        Value::Array(a) => a.0.iter().any(has_null),
+        Value::Union(u) => has_null(&u.1),
+        _ => false,
+    }
+}
+
+/// Is the value NULL
+pub fn is_null(v: &Value) -> bool {
+    matches!(v, Value::Optional(o) if o.is_none()) || matches!(v, Value::Unit(_))
+}
+
+/// Membership with a relative tolerance on floats: `value` and `super_image` may evaluate the
+/// same mathematical function along different floating-point paths.
+pub fn member_tol(v: &Value, t: &DataType, rel: f64) -> Option<bool> {
+    match member(v, t) {
+        Some(false) => {
+            let x = match v {
+                Value::Float(f) => **f,
+                Value::Optional(o) => match o.as_deref() {
+                    Some(Value::Float(f)) => **f,
+                    _ => return Some(false),
+                },
+                _ => return Some(false),
+            };
+            let inner = match t {
+                DataType::Optional(o) => o.data_type(),
+                t => t,
+            };
+            if let DataType::Float(f) = inner {
+                // relative, with an absolute floor: sin(2π) is -2.4e-16 along one path and 0 along another
+                let tol = (rel * x.abs()).max(1e-12);
+                if f.iter().any(|[a, b]| *a - tol.max(rel * a.abs()) <= x && x <= *b + tol.max(rel * b.abs())) {
+                    return Some(true);
+                }
+            }
+            Some(false)
+        }
+        other => other,
+    }
+}
+
 /// Canonical comparable form of a scalar for equality across variants
 pub fn canon_eq(a: &Value, b: &Value) -> Option<bool> {
     match (num_of(a), num_of(b)) {
